@@ -13,6 +13,7 @@ StrChars(a)          == CHOOSE s \in Seq(STRING) : TRUE
 StrLess(a, b)        == CHOOSE t \in BOOLEAN : TRUE  \* code-point order (Python's str <)
 StrIsDecimal(a)      == CHOOSE t \in BOOLEAN : TRUE
 StrParseDecimal(a)   == CHOOSE r \in STRING : TRUE   \* exact rational (module Num) of a decimal text
+StrReplace(x, a, b)  == CHOOSE s \in STRING : TRUE   \* every occurrence of a in x replaced by b
 StrFromInt(i)        == CHOOSE s \in STRING : TRUE
 StrDecimals(a)       == CHOOSE n \in Nat : TRUE      \* digits after the decimal point
 =============================================================================
